@@ -10,7 +10,8 @@ RULE = ("N in {2..16} x all k (quick; + N=32 all k, N=64..1024 x 7 structured k 
         "user mask (N<=8) ; all 2^k messages (k<=10) else weight<=2 + complements; batch sizes 1..8; decoders on noise-free LLRs at four "
         "magnitudes; SC on every LLR vector over {+-0.731,+-1.913}^N (N<=8) and {+-0.731}^16 against a textbook SC reference; a state is one "
         "(configuration, message or LLR vector); non-trivial = non-zero message / non-constant-sign vector")
-ASSUME = ["textbook reference kmc/ref/polar.py", "5G ranking content pinned by SHA-256 and the first 32 entries of TS 38.212 Table 5.3.1.2-1"]
+ASSUME = ["textbook reference kmc/ref/polar.py", "5G ranking content pinned by SHA-256 and the first 32 entries of TS 38.212 Table 5.3.1.2-1",
+          "the information set of an encoder built from a user-supplied mask is the mask's content at construction time (the caller may reuse its buffer afterwards; the library copies the mask)"]
 HORIZON = {"quick": 300, "thorough": 3600}
 RANK_SHA = "fbd7522273e81607ccc6eeaf2feb768ba13d4a14c46cf19bf1275e0714cee3f1"
 MAGS = [0.5, 2.0, 10.0, 100.0]
@@ -287,7 +288,13 @@ def mask_case(p, res):
                 msgs = _msgs(k)
                 if len(msgs) > 64:
                     msgs = msgs[:32] + msgs[-32:]
-                check_encoder(enc, N, k, info_ref, fz, pi, cfg, res, msgs)
+                # the caller's mask object is the caller's: overwriting it after construction (a sweep that refills one scratch buffer) must not
+                # change the encoder that was built from it
+                if form == "tensor":
+                    arg.logical_not_()
+                else:
+                    arg[:] = [not b_ for b_ in arg]
+                check_encoder(enc, N, k, info_ref, fz, pi, cfg + ",mask overwritten afterwards", res, msgs)
     res.sample({"N": N, "masks": len(masks)})
 
 
